@@ -38,6 +38,7 @@ func c17(c *Ctx) {
 	sMainSendsBuffered(c, "R8/S-MAINSEND")
 	c13R1(c, "R9/C13.R1")
 	sCommitCoversConfig(c, "R9/S-COMMITCFG")
+	sLockDiscipline(c, "R10/S-LOCK", "verifyFuture", "followerReplication")
 }
 
 func loopSelect(c *Ctx, fn *ssa.Function) *ssa.Select {
